@@ -55,6 +55,10 @@ theorem interchange_wf (d d' : Diagram) (i j : Int) (left : Bool) (hd : d.WF)
     (h : d.interchange i j left = .ok d') : d'.WF ∧ d'.dom = d.dom ∧ d'.cod = d.cod :=
   Diagram.interchange_wf hd h
 
+/-- Transposes (rigid.py:252-279) of well-typed diagrams are well-typed. -/
+theorem transpose_wf (d d' : Diagram) (left : Bool) (hd : d.WF) (h : d.transpose left = .ok d') :
+    d'.WF := Diagram.transpose_wf hd h
+
 /-- Every diagram yielded by `foliate` (rewriting.py:155-255) is well-typed with the input's
     domain, codomain and boxes, and every slice it returns is well-typed. -/
 theorem foliate_wf (d : Diagram) (steps slices : List Diagram) (hd : d.WF)
